@@ -393,7 +393,11 @@ def gen_setattr(w, r, kinds=None, attrs=None):
     k = m.nodes[l].kind
     pool = [a for a in SetAttr.ATTRS[k] if attrs is None or a in attrs]
     if k == "ir":
-        return None
+        if not w.cfg.get("allow_ir_version"):
+            return None
+        # IR.version is an ordinary attribute; a save writes it into the message while the header
+        # byte stays the protobuf version of this API (such a file is rejected on load)
+        return {"op": "setattr", "label": l, "attr": "version", "value": r.choice([3, 4, 4, 5, 0, 1, 2**32 - 1])}
     if not pool:
         return None
     attr = r.choice(pool)
